@@ -702,6 +702,18 @@ structure GdSt where
 /-- `GlyphPatches::glyph_data_for_table(table_index)`: `start_index = table_index.saturating_mul(glyph_count)` -/
 def gdStartIndex (h : GpHdr) (ti : Nat) : Nat := satMul ti h.gc
 
+/-- the tail of `GlyphDataIterator::next` once the glyph id was accepted (`s2` = the state with
+`previous_gid` updated): `end.checked_sub(start)` (`MalformedData`), `self.patches.resolve_offset(start)`,
+`data.as_bytes().get(..len)` -/
+def gdData (d : List Nat) (s2 : GdSt) (gid st en : Nat) : Out (Except AErr (Nat × Nat × Nat)) × GdSt :=
+  if en < st then (.yield (.error .malformed), { s2 with failed := true })
+  else
+    match resolveOff d st with
+    | .error e => (.yield (.error e), { s2 with failed := true })
+    | .ok data =>
+      if en - st ≤ data.length then (.yield (.ok (gid, st, en - st)), s2)
+      else (.yield (.error .oob), { s2 with failed := true })
+
 /-- one call of `GlyphDataIterator::next`.  The zipped iterator
 `glyph_ids().iter().take(glyph_count).zip(offsets.iter().skip(start_index).zip(offsets.iter().skip(start_index.saturating_add(1))))`
 yields its `k`-th item iff `k < glyph_count`, `start_index + k < offsets.len()` and
@@ -719,17 +731,11 @@ def gdStep (d : List Nat) (h : GpHdr) (si : Nat) (s : GdSt) : Out (Except AErr (
       match readAt d (h.idsAt + h.w * s.k) h.w with
       | none => (.yield (.error .oob), { s1 with failed := true })
       | some gid =>
-        if (match s.prev with | some p => decide (gid ≤ p) | none => false) then
-          (.yield (.error .malformed), { s1 with failed := true })
-        else
-          let s2 : GdSt := { s1 with prev := some gid }
-          if en < st then (.yield (.error .malformed), { s2 with failed := true })
-          else
-            match resolveOff d st with
-            | .error e => (.yield (.error e), { s2 with failed := true })
-            | .ok data =>
-              if en - st ≤ data.length then (.yield (.ok (gid, st, en - st)), s2)
-              else (.yield (.error .oob), { s2 with failed := true })
+        match s.prev with
+        | none => gdData d { s1 with prev := some gid } gid st en
+        | some p =>
+          if gid ≤ p then (.yield (.error .malformed), { s1 with failed := true })
+          else gdData d { s1 with prev := some gid } gid st en
     -- the offsets are elements of the `glyph_data_offsets` slice: reading them cannot fail
     | _, _ => (.trap, s)
 
